@@ -69,6 +69,24 @@ func gen(g *common.Gen) {
 		}
 		for k := 0; k < nops; k++ {
 			switch x := r.Intn(100); {
+			case x < 5:
+				// a refresh with byte-identical bytes after time has passed, then MustBeFresh lookups around the two
+				// candidate stale instants (first insertion + F, refresh + F)
+				n := draw()
+				fresh := common.Pick(r, []int{10, 50, 100})
+				seq++
+				w := common.Hex(DataWire(n, fresh, []byte{byte(seq >> 8), byte(seq)}))
+				a := common.Pick(r, []int{1, fresh / 2, fresh - 1})
+				g.Op("ins %s %d %s", common.NameText(n), fresh, w)
+				g.Op("adv %d", a)
+				g.Op("ins %s %d %s", common.NameText(n), fresh, w)
+				inserted = append(inserted, n)
+				g.Op("adv %d", common.Pick(r, []int{fresh - a, fresh - a + a/2, fresh - 1, fresh, fresh + 1}))
+				g.Op("find %s 0 1", common.NameText(n))
+				if r.Chance(1, 2) {
+					g.Op("find %s 1 1", common.NameText(n))
+				}
+				g.Stat("ins-identical")
 			case x < 40:
 				n := draw()
 				fresh := -1
